@@ -586,7 +586,7 @@ def warm_need(kind, kw, start=0):
 
 def gen_scn(rng, idx, prop, params):
     kinds = KINDS[prop]
-    kind = kinds[idx % len(kinds)]
+    kind = cm.pick_kind(rng, kinds, kinds[idx % len(kinds)])
     size = params.get("size", 80)
     p = gen_period(rng)
     kw = {"round_value": rng.randint(0, 8)}
